@@ -454,13 +454,15 @@ func c10RunDirect(limit int, body int64) explore.Result {
 
 func init() {
 	explore.Register(&explore.Check{
-		ID:        "C10",
-		Level:     "model_checking",
-		Technique: "exhaustive enumeration of (limit x declared length x message type x position in the exchange) on a real server with a zero-generating transport and a live-heap monitor, plus the same boundary enumeration directly on buffer.Reader; within-limit cases are judged differentially against a large limit, oversized cases against the protocol rule",
-		Rule:      "limits 12..40, 4095, 4096, 4097, 65536, 0 and -1 (default 16 MiB); body sizes {0,1,L-1,L,L+1,L+2,2L,2L+1,3L+7}, raw declared lengths 0..3, and 2^16, 2^31-5, 2^31-4, 2^32-5 for L >= 4096; all 13 client types + an unknown type; positions startup / password / first message / between queries / after Parse / inside COPY; every message is followed by a probe query",
+		ID:          "C10",
+		Level:       "model_checking",
+		Technique:   "exhaustive enumeration of (limit x declared length x message type x position in the exchange) on a real server with a zero-generating transport and a live-heap monitor, plus the same boundary enumeration directly on buffer.Reader; within-limit cases are judged differentially against a large limit, oversized cases against the protocol rule",
+		Rule:        "limits 12..40, 4095, 4096, 4097, 65536, 0 and -1 (default 16 MiB); body sizes {0,1,L-1,L,L+1,L+2,2L,2L+1,3L+7}, raw declared lengths 0..3, and 2^16, 2^31-5, 2^31-4, 2^32-5 for L >= 4096; all 13 client types + an unknown type; positions startup / password / first message / between queries / after Parse / inside COPY; every message is followed by a probe query",
 		Assumptions: []string{"not asserted: a ReadyForQuery after the 54000 error; continue-or-close after a sub-minimum length", "live heap is sampled (forced GC) at the first 8 and every 2048th transport read while the message is in flight"},
 		Enumerate:   c10Enumerate,
-		Bounds:      func(tier string) map[string]any { return map[string]any{"limits": c10Limits(tier), "types": string(c10Types)} },
+		Bounds: func(tier string) map[string]any {
+			return map[string]any{"limits": c10Limits(tier), "types": string(c10Types)}
+		},
 		RequiredOutcomes: []string{"within-limit", "oversized-session", "oversized-handshake", "sub-minimum", "direct-reader"},
 	})
 }
